@@ -665,12 +665,10 @@ def sub_addresses(tier, seed):
     }
     if tier == "thorough":
         for hrp in ("bc", "tb", "bcrt"):
-            for ver, n in ((0, 20), (0, 32), (1, 32), (16, 2), (16, 40), (2, 2), (1, 40)):
+            for ver, n in ((0, 20), (0, 32), (1, 32), (16, 2), (16, 40), (2, 2)):
                 out.setdefault(f"{hrp}-v{ver}-{n}", (hrp, ver, f(f"{hrp}{ver}", n)))
         out["bc-v0-20-zeros"] = ("bc", 0, b"\x00" * 20)
         out["bc-v1-32-ff"] = ("bc", 1, b"\xff" * 32)
-        out["bc-v0-20-b"] = ("bc", 0, f("e", 20))
-        out["bc-v1-32-b"] = ("bc", 1, f("g", 32))
     return out
 
 
@@ -715,8 +713,8 @@ def run_segwit_sub(case):
     if standard:
         apis.append(("address_to_script_pubkey", address_to_script_pubkey))
         apis1 = apis + [("TxOut.to_address", lambda s: TxOut.to_address(s, 1))]
-    # doubles: thorough runs every decoder; quick runs decode_bech32 everywhere and the address-level decoders on the mainnet P2WPKH address
-    apis2 = apis1 if (tier == "thorough" or name == "bc-v0-20") else apis[:1]
+    # doubles: mainnet addresses go through every decoder; tb/bcrt through decode_bech32 (+ address_to_script_pubkey in thorough)
+    apis2 = apis1 if hrp == "bc" else (apis if tier == "thorough" else apis[:1])
     if i == 0:
         got = attempt(decode_bech32, addr)
         exp = [{"bc": "mainnet", "tb": "testnet", "bcrt": "regtest"}[hrp], ver, prog]
@@ -816,9 +814,10 @@ def engines(tier, seed):
         ),
         Engine(
             "segwit-sub", gen_segwit_sub, run_segwit_sub, kind="E1",
-            rule="for each address (quick: bc v0/20B, tb v1/32B, bcrt v16/2B, bcrt v0/20B; thorough: 3 HRPs x {v0/20,v0/32,v1/32,v16/2,v16/40,v2/2,v1/40} + 4 more) "
+            rule="for each address (quick: bc v0/20B, tb v1/32B, bcrt v16/2B, bcrt v0/20B; thorough: 3 HRPs x {v0/20,v0/32,v1/32,v16/2,v16/40,v2/2} + all-zero and all-ff programs) "
             "ALL single substitutions (len x 31) and ALL double substitutions (C(len,2) x 31^2) of the data part incl. version and checksum characters, through "
-            "decode_bech32 (+ address_to_script_pubkey for standard programs; TxOut.to_address on singles, thorough also doubles); reference verdict from exact GF(2) syndrome "
+            "decode_bech32 (standard programs: singles also through address_to_script_pubkey and TxOut.to_address; doubles through both for HRP bc, thorough also "
+            "address_to_script_pubkey for tb/bcrt); reference verdict from exact GF(2) syndrome "
             "tables + full BIP173/350 decoder. Non-trivial = mutated string that still reaches the checksum test (all: HRP, separator, charset and length are intact)",
         ),
     ]
